@@ -125,9 +125,16 @@ def h_split(cfg):
 def h_initial(cfg):
     """Environment(initial_time=tau), run(until=c): ValueError iff c <= tau; otherwise returns with now == c"""
     from onl.sim import Environment
-    tau = sym_num('tau', cfg['sorts'], 0)
+    base = cfg.get('base', 0)
+    if base:
+        # huge integer clock: everything concrete except which small delay is chosen (the point is exact integer instants)
+        from symx import choice
+        tau = base
+        d = choice('d', 6)
+    else:
+        tau = sym_num('tau', cfg['sorts'], 0)
+        d = sym_num('d', cfg['sorts'], 0)
     env = Environment(initial_time=tau)
-    d = sym_num('d', cfg['sorts'], 0)
     log = []
 
     def p():
@@ -135,7 +142,7 @@ def h_initial(cfg):
         log.append(env.now)
 
     env.process(p())
-    c = cfg['c']
+    c = base + cfg['c']
     try:
         env.run(until=c)
     except ValueError:
@@ -439,6 +446,9 @@ def jobs(tier, seed):
     for sorts in ('int', 'real'):
         for c in (0, 1, 2):
             js.append({'harness': 'initial', 'cfg': {'sorts': sorts, 'c': c}})
+    # integer clocks beyond 2**53 (e.g. nanosecond timestamps): integer instants must stay exact
+    for c in (1, 3):
+        js.append({'harness': 'initial', 'cfg': {'sorts': 'int', 'c': c, 'base': 2 ** 53}})
     for plan in ([['until', 1], ['until', 2]], [['step', 2], ['until', 3]], [['until', 2], ['step', 3]]):
         js.append({'harness': 'net', 'cfg': {'n': 2, 'sorts': 'int', 'plan': plan}, 'weight': 300})
     for what in ('and', 'or', 'fail'):
